@@ -22,4 +22,4 @@ Extraction "../ocaml/model.ml"
   d_run d_new iter_children m_run m_new cursor_run
   cstep spawn c_init pc_of spec_get
   batch_encode batch_decode vchange_encode vchange_decode vc_empty
-  keep gc.
+  keep gc file_bounds_ok.
